@@ -260,10 +260,9 @@ def check(prog, rep):
         out = {}
         for r in rets:
             v = r.value
-            if isinstance(v, ast.Call) and v.keywords and not v.args and isinstance(v.func, ast.Name) and v.func.id in prog.classes:
-                for kw in v.keywords:
-                    if kw.arg:
-                        out[kw.arg] = kw.value
+            if isinstance(v, ast.Call) and (v.keywords or v.args) and isinstance(v.func, ast.Name) and v.func.id in prog.classes:
+                from .common import constructor_fields
+                out.update(constructor_fields(prog, v.func.id, v))
             elif isinstance(v, ast.Name):
                 stores = [n for n in walk_local(f.node, include_self=False) if isinstance(n, ast.Assign) and isinstance(n.targets[0], ast.Subscript) and isinstance(n.targets[0].value, ast.Name) and n.targets[0].value.id == v.id and isinstance(n.targets[0].slice, ast.Constant)]
                 for st in stores:
